@@ -3,3 +3,5 @@ import Model.Codec
 import Model.Dict
 import Model.Find
 import Model.Stream
+import Model.Retry
+import Model.Writers
